@@ -29,7 +29,7 @@ package go_clipper2
 //@   ensures [range] -1 <= result && result <= 1
 
 //@ func multiplyUInt64
-//@   props C14 C13
+//@   props C14 C13 C15
 //@   ensures [exact128] mathInt(result.Hi64)*pow2(64) + mathInt(result.Lo64) == mathInt(a)*mathInt(b)
 
 //@ func productsAreEqual
@@ -182,8 +182,9 @@ package go_clipper2
 //@ spec idle(c *clipperBase) bool = c.actives == nil && len(c.scanlineList) == 0 && len(c.intersectList) == 0 && len(c.outrecList) == 0 && len(c.horzSegList) == 0 && len(c.horzJoinList) == 0
 
 //@ func clipperBase.clearSolutionOnly
-//@   props C12 C17 C02
+//@   props C12 C17 C02 C09
 //@   ensures [idle] idle(c)
+//@   ensures [what-was-added-and-configured-is-kept] c.hasOpenPaths == old(c.hasOpenPaths) && c.isSortedMinimaList == old(c.isSortedMinimaList) && c.preserveCollinear == old(c.preserveCollinear) && c.reverseSolution == old(c.reverseSolution) && c.usingPolyTree == old(c.usingPolyTree)
 //@   ensures [keeps-input] same(c.minimaList, old(c.minimaList)) && same(c.vertexList, old(c.vertexList))
 
 //@ func clipperBase.reset
@@ -195,6 +196,8 @@ package go_clipper2
 //@   loop 0 decreases i + 1
 //@   ensures [fresh-run-state] c.currentBotY == 0 && c.currentLocMin == 0 && c.actives == nil && c.sel == nil && c.succeeded
 //@   ensures [scanlines] len(c.scanlineList) == len(c.minimaList)
+//@   ensures [minima-sorted-bottom-up] !old(c.isSortedMinimaList) ==> forall(k, 1, len(c.minimaList), c.minimaList[k-1].Vertex.pt.Y >= c.minimaList[k].Vertex.pt.Y)
+//@   ensures [what-was-added-and-configured-is-kept] c.isSortedMinimaList && c.hasOpenPaths == old(c.hasOpenPaths) && len(c.minimaList) == old(len(c.minimaList)) && c.preserveCollinear == old(c.preserveCollinear) && c.reverseSolution == old(c.reverseSolution) && c.usingPolyTree == old(c.usingPolyTree)
 
 //@ func clipperBase.execute
 //@   props C12 C17
@@ -1501,8 +1504,10 @@ package go_clipper2
 
 //@ spec grpSteps360(co *ClipperOffset, ad float64) float64 = math.Pi / math.Acos(1-ite(co.ArcTolerance > Tolerance, co.ArcTolerance, ad*arc)/ad)
 
+//@ spec squareAround(q Path64, pt Point64, d float64) bool = len(q) == 4 && toReal(q[0].X) == toReal(pt.X) - d && toReal(q[0].Y) == toReal(pt.Y) - d && toReal(q[1].X) == toReal(pt.X) + d && q[1].Y == q[0].Y && q[2].X == q[1].X && toReal(q[2].Y) == toReal(pt.Y) + d && q[3].X == q[0].X && q[3].Y == q[2].Y
 //@ func ClipperOffset.doGroupOffset
 //@   props C05 C10 C12
+//@   loop 0 step [a-single-point-becomes-the-square-of-half-width-delta-rounded-up] (co.deltaCallback == nil && len(group.inPaths[old(_i)]) == 1 && group.endType != RoundET && absI(co.groupDelta) <= 1000000000.0) ==> (len(*co.solution) == old(len(*co.solution)) + 1 && squareAround((*co.solution)[len(*co.solution)-1], group.inPaths[old(_i)][0], math.Ceil(co.groupDelta)))
 //@   loop 0 entry [arc-parameters-come-from-this-call-only] (group.joinType == Round || group.endType == RoundET) ==> (co.stepSin == ite(co.groupDelta < 0, -math.Sin((2 * math.Pi) / grpSteps360(co, absDelta)), math.Sin((2 * math.Pi) / grpSteps360(co, absDelta))) && co.stepCos == math.Cos((2 * math.Pi) / grpSteps360(co, absDelta)) && co.stepsPerRad == grpSteps360(co, absDelta) / (2 * math.Pi))
 //@   nosafety
 //@   requires group != nil
@@ -1682,6 +1687,7 @@ package go_clipper2
 //@   assumes dom(pt, 29) && dom(e.top, 29) && dom(e.bot, 29) && (e.nextInAEL != nil ==> (dom(e.nextInAEL.top, 29) && dom(e.nextInAEL.bot, 29)))
 //@   requires e != nil && e.localMin != nil && (e.nextInAEL != nil ==> e.nextInAEL.localMin != nil)
 //@   ensures [only-hot-closed-sloped-neighbours] (e.nextInAEL == nil || old(e.outrec) == nil || old(e.nextInAEL.outrec) == nil || e.localMin.IsOpen || e.nextInAEL.localMin.IsOpen || old(e.bot.Y == e.top.Y) || old(e.nextInAEL.bot.Y == e.nextInAEL.top.Y)) ==> (e.joinWith == old(e.joinWith) && e.outrec == old(e.outrec) && (e.nextInAEL != nil ==> (e.nextInAEL.joinWith == old(e.nextInAEL.joinWith) && e.nextInAEL.outrec == old(e.nextInAEL.outrec))))
+//@   ensures [at-a-crossing-a-join-needs-the-point-on-the-neighbours-line] (checkCurrX && old(e.nextInAEL) != nil && PerpendicDistFromLineSqr64(pt, old(e.nextInAEL.bot), old(e.nextInAEL.top)) > 0.25) ==> (e.joinWith == old(e.joinWith) && old(e.nextInAEL).joinWith == old(e.nextInAEL.joinWith) && e.outrec == old(e.outrec))
 
 //@ func clipperBase.checkJoinLeft
 //@   props C03 C09 C02
@@ -1689,6 +1695,7 @@ package go_clipper2
 //@   assumes dom(pt, 29) && dom(e.top, 29) && dom(e.bot, 29) && (e.prevInAEL != nil ==> (dom(e.prevInAEL.top, 29) && dom(e.prevInAEL.bot, 29)))
 //@   requires e != nil && e.localMin != nil && (e.prevInAEL != nil ==> e.prevInAEL.localMin != nil)
 //@   ensures [only-hot-closed-sloped-neighbours] (e.prevInAEL == nil || old(e.outrec) == nil || old(e.prevInAEL.outrec) == nil || e.localMin.IsOpen || e.prevInAEL.localMin.IsOpen || old(e.bot.Y == e.top.Y) || old(e.prevInAEL.bot.Y == e.prevInAEL.top.Y)) ==> (e.joinWith == old(e.joinWith) && e.outrec == old(e.outrec) && (e.prevInAEL != nil ==> (e.prevInAEL.joinWith == old(e.prevInAEL.joinWith) && e.prevInAEL.outrec == old(e.prevInAEL.outrec))))
+//@   ensures [at-a-crossing-a-join-needs-the-point-on-the-neighbours-line] (checkCurrX && old(e.prevInAEL) != nil && PerpendicDistFromLineSqr64(pt, old(e.prevInAEL.bot), old(e.prevInAEL.top)) > 0.25) ==> (e.joinWith == old(e.joinWith) && old(e.prevInAEL).joinWith == old(e.prevInAEL.joinWith) && e.outrec == old(e.outrec))
 
 //@ func clipperBase.addLocalMinPoly
 //@   props C02 C04 C09
@@ -2025,7 +2032,7 @@ package go_clipper2
 // a local maximum closes a ring (both edges on the same record) or joins two rings; afterwards
 // neither edge is hot, and two closed edges on the same side of one record are reported as an error
 //@ func clipperBase.addLocalMaxPoly
-//@   props C02 C03 C09
+//@   props C02 C03 C09 C04
 //@   nosafety
 //@   assumes ae1 != nil && ae2 != nil && ae1 != ae2 && ae1.localMin != nil && ae2.localMin != nil && ae1.vertexTop != nil && ae2.vertexTop != nil
 //@   assumes ae1.joinWith == JoinNone && ae2.joinWith == JoinNone && ae1.outrec != nil && ae2.outrec != nil
@@ -2036,6 +2043,8 @@ package go_clipper2
 //@   assumes ae1.outrec != ae2.outrec ==> (ae1.outrec.pts != ae2.outrec.pts && ae1.outrec.pts != ae2.outrec.pts.next && ae1.outrec.pts.next != ae2.outrec.pts && ae1.outrec.pts.next != ae2.outrec.pts.next)
 //@   ensures [same-side-closed-edges-are-an-error] (old(frontOf(ae1) == frontOf(ae2)) && !openEnd(ae1) && !openEnd(ae2)) ==> (result == nil && !c.succeeded)
 //@   ensures [ring-closed] old(ae1.outrec == ae2.outrec) ==> (result != nil && old(ae1.outrec).pts == result && old(ae1.outrec).frontEdge == nil && old(ae1.outrec).backEdge == nil && ae1.outrec == nil && ae2.outrec == nil)
+//@   ensures [tree-mode-a-ring-closed-at-the-far-left-has-no-owner] (c.usingPolyTree && old(ae1.outrec == ae2.outrec) && result != nil && ae1.prevInAEL == nil) ==> old(ae1.outrec).owner == nil
+//@   ensures [tree-mode-a-closed-ring-is-owned-by-the-ring-of-the-hot-edge-on-its-left] (c.usingPolyTree && old(ae1.outrec == ae2.outrec) && result != nil && ae1.prevInAEL != nil && old(ae1.prevInAEL.outrec) != nil && ae1.prevInAEL.localMin != nil && !ae1.prevInAEL.localMin.IsOpen && old(ae1.prevInAEL.outrec) != old(ae1.outrec) && ae1.prevInAEL != ae2) ==> old(ae1.outrec).owner == old(ae1.prevInAEL.outrec)
 //@   ensures [closed-rings-joined] (old(ae1.outrec != ae2.outrec) && !ae1.localMin.IsOpen && old(frontOf(ae1) != frontOf(ae2))) ==> (ae1.outrec == nil && ae2.outrec == nil)
 
 // a new left bound is linked into the active list, and never between two edges that are joined
@@ -2067,6 +2076,7 @@ package go_clipper2
 //@   trusted
 //@   ensures [true-means-bounded] result ==> (outrec.pts != nil && !rectEmpty(outrec.bounds))
 //@   ensures [owners-of-existing-records-kept] forallp(r, OutRec, fresh(r) || r.owner == old(r.owner))
+//@   ensures [records-stay-listed-and-dead-rings-stay-dead] len(c.outrecList) >= old(len(c.outrecList)) && forall(k, 0, old(len(c.outrecList)), c.outrecList[k] == old(c.outrecList[k])) && forallp(r, OutRec, fresh(r) || old(r.pts) != nil || r.pts == nil)
 
 //@ func clipperBase.checkBounds variant body
 //@   props C04 C03
@@ -2075,11 +2085,23 @@ package go_clipper2
 //@   ensures [no-ring-no-bounds] old(outrec.pts) == nil ==> !result
 //@   ensures [known-bounds-kept] (old(outrec.pts) != nil && !rectEmpty(old(outrec.bounds))) ==> (result && outrec.bounds == old(outrec.bounds) && outrec.pts == old(outrec.pts))
 
+//@ spec visitedFor(r *OutRec, outrec *OutRec) bool = r.pts == nil || r == outrec || r.recursiveSplit == outrec
 //@ func clipperBase.checkSplitOwner
 //@   props C04 C03
 //@   nosafety
 //@   requires outrec != nil
 //@   ensures [owner-found-is-bounded] result ==> (outrec.owner != nil && outrec.owner.pts != nil && !rectEmpty(outrec.owner.bounds))
+//@   assumes forall(j, 0, len(splits), 0 <= splits[j] && splits[j] < len(c.outrecList))
+//@   assumes forall(k, 0, len(c.outrecList), allocated(c.outrecList[k]))
+//@   assert after call:clipperBase.checkSplitOwner#1 [the-splits-of-a-newly-visited-ring-are-searched-too] forall(k, 0, len(old(split.splits)), visitedFor(c.outrecList[old(split.splits)[k]], outrec))
+//@   ensures [no-owner-found-means-every-live-listed-split-was-visited] !result ==> forall(k, 0, len(splits), visitedFor(c.outrecList[splits[k]], outrec))
+//@   ensures [marks-are-kept] forallp(r, OutRec, old(r.recursiveSplit) == outrec ==> r.recursiveSplit == outrec)
+//@   ensures [records-stay-listed-and-dead-rings-stay-dead] len(c.outrecList) >= old(len(c.outrecList)) && forall(k, 0, old(len(c.outrecList)), c.outrecList[k] == old(c.outrecList[k])) && forallp(r, OutRec, fresh(r) || old(r.pts) != nil || r.pts == nil)
+//@   loop 0 invariant [visited-so-far] forall(k, 0, _i, visitedFor(c.outrecList[splits[k]], outrec))
+//@   loop 0 invariant [marks-kept] forallp(r, OutRec, old(r.recursiveSplit) == outrec ==> r.recursiveSplit == outrec)
+//@   loop 0 invariant [listed] len(c.outrecList) >= old(len(c.outrecList)) && forall(k, 0, old(len(c.outrecList)), c.outrecList[k] == old(c.outrecList[k]))
+//@   loop 0 invariant [dead-stay-dead] forallp(r, OutRec, fresh(r) || old(r.pts) != nil || r.pts == nil)
+//@   loop 0 invariant [listed-records-exist] forall(k, 0, old(len(c.outrecList)), allocated(c.outrecList[k]))
 
 //@ func clipperBase.recursiveCheckOwners
 //@   props C04 C03
@@ -2334,9 +2356,10 @@ package go_clipper2
 //@   props C04 C02 C03
 //@   nosafety
 //@   assumes ae != nil && forallp(e, Active, e.localMin != nil)
-//@   loop 0 invariant [walk] (ae.prevInAEL != nil && ae.prevInAEL.outrec != nil && !ae.prevInAEL.localMin.IsOpen) ==> prev == ae.prevInAEL
+//@   loop 0 invariant [walk] ((ae.prevInAEL != nil && ae.prevInAEL.outrec != nil && !ae.prevInAEL.localMin.IsOpen) ==> prev == ae.prevInAEL) && (ae.prevInAEL == nil ==> prev == nil)
 //@   ensures [hot-closed-edge-or-none] result == nil || (result.outrec != nil && !result.localMin.IsOpen)
 //@   ensures [immediate-neighbour-wins] (ae.prevInAEL != nil && ae.prevInAEL.outrec != nil && !ae.prevInAEL.localMin.IsOpen) ==> result == ae.prevInAEL
+//@   ensures [leftmost-edge-has-none] ae.prevInAEL == nil ==> result == nil
 
 //@ func getMaximaPair
 //@   props C01 C03
@@ -2397,10 +2420,14 @@ package go_clipper2
 // upwards (larger Y first), ties from left to right, and a crossing is only processed while its two edges are
 // neighbours in the active edge list
 //@ func clipperBase.processIntersectList
-//@   props C01 C17 C03
+//@   props C01 C17 C03 C08 C02
 //@   nosafety
-//@   opaque clipperBase.intersectEdges clipperBase.swapPositionsInAEL clipperBase.checkJoinLeft clipperBase.checkJoinRight
+//@   opaque clipperBase.intersectEdges clipperBase.swapPositionsInAEL
 //@   assumes forall(k, 0, len(c.intersectList), c.intersectList[k] != nil && c.intersectList[k].edge1 != nil && c.intersectList[k].edge2 != nil)
+//@   assumes forallp(e, Active, e.localMin != nil)
+//@   loop 0 invariant [nodes] forall(k, 0, len(c.intersectList), c.intersectList[k] != nil && c.intersectList[k].edge1 != nil && c.intersectList[k].edge2 != nil) && forallp(e, Active, e.localMin != nil)
+//@   assert after call:clipperBase.checkJoinRight#0 [a-join-made-at-a-crossing-has-the-crossing-on-the-neighbours-line] (old(node.edge1.nextInAEL) != nil && PerpendicDistFromLineSqr64(node.pt, old(node.edge1.nextInAEL.bot), old(node.edge1.nextInAEL.top)) > 0.25) ==> node.edge1.joinWith == old(node.edge1.joinWith)
+//@   assert after call:clipperBase.checkJoinLeft#0 [a-join-made-at-a-crossing-has-the-crossing-on-the-neighbours-line-left] (old(node.edge2.prevInAEL) != nil && PerpendicDistFromLineSqr64(node.pt, old(node.edge2.prevInAEL.bot), old(node.edge2.prevInAEL.top)) > 0.25) ==> node.edge2.joinWith == old(node.edge2.joinWith)
 //@   loop 0 entry [crossings-are-taken-bottom-up-then-left-to-right] forall(k, 1, len(c.intersectList), c.intersectList[k-1].pt.Y > c.intersectList[k].pt.Y || (c.intersectList[k-1].pt.Y == c.intersectList[k].pt.Y && c.intersectList[k-1].pt.X <= c.intersectList[k].pt.X))
 //@   loop 0 step [both-edges-move-to-the-crossing] i == old(i) + 1 && c.intersectList[old(i)].edge1.curX == c.intersectList[old(i)].pt.X && c.intersectList[old(i)].edge2.curX == c.intersectList[old(i)].pt.X
 //@   assert after node [only-neighbouring-edges-are-crossed] node != nil ==> (node.edge1.nextInAEL == node.edge2 || node.edge1.prevInAEL == node.edge2)
